@@ -362,6 +362,21 @@ func suiteC09(c *Ctx) []Suite {
 						}
 					}
 				}
+				// a key shaped like an ellipsis that names no variable of the template is an
+				// unknown key like any other, whatever its value
+				if c.R.Intn(4) == 0 {
+					hasEll := false
+					for _, v := range vars {
+						if strings.HasPrefix(v.name, "...") {
+							hasEll = true
+						}
+					}
+					if !hasEll {
+						k := []string{"...", "...[0]", "...[7]"}[c.R.Intn(3)]
+						asg[k] = FillVal{Tok: []string{sintTok(0, 2), sintTok(64, 2), strTok("x"), "x", "b:1", "t U1 1 5", "f64:0"}[c.R.Intn(7)]}
+						keys = append(keys, k)
+					}
+				}
 				// unknown keys are ignored
 				if c.R.Intn(3) == 0 {
 					k := "unknown_" + fmt.Sprint(i)
